@@ -1136,7 +1136,8 @@ def c12(R, ctx):
                         % (r, len(items)), {"history": [{"root": root, "input_hex": (b if isinstance(b, str) else h(b))} for root, b in items], "result": r,
                                             "how": "harness/impl_worker.py: " + q[:200]})
     R.coverage.update({"evaluations": len(reqs), "distinct_nontrivial": len(set(reqs)),
-                       "rule": "histories of 2-5 decodes drawn from messages with encrypted parameter areas of different commands (commands and responses), ordinary pairs, pcapng captures with raw-IP and Ethernet link layers (also compared with the decode of the carried bytes) and structure-type roots incl. inputs cut inside a size-prefixed region or with an oversized inner size (decodes ending in an exception); each history is run in warn mode and in strict mode, sequentially twice and step-wise interleaved (round robin over next()); results compared with Python == (events, by-product objects, objects rebuilt from events); distinct = distinct histories",
+                       "rule": "histories of 2-5 decodes drawn from messages with encrypted parameter areas of different commands (commands and responses), ordinary pairs, pcapng captures with raw-IP and Ethernet link layers (also compared with the decode of the carried bytes) and structure-type roots incl. inputs cut inside a size-prefixed region or with an oversized inner size (decodes ending in an exception); failed responses with response codes of every format; each history is run in strict mode and in warn mode, sequentially twice - everything decoded in the first round is printed (str, repr, both printers) before the second - and step-wise interleaved (round robin over next()); results compared with Python == (events, warnings, by-product objects, objects rebuilt from events); distinct = distinct histories",
+                       "source_audit": {"what": "default arguments evaluated once, global/nonlocal statements, memo decorators/helpers besides the known ones, in every module under src/tpmstream (gen/translate.py audit_sources -> gen/Audit.v, theorem C12_no_further_shared_state_in_the_sources)", "findings": common.AUDIT},
                        "histories_with_two_or_more_encrypted_areas": enc_hist,
                        "samples": [{"history": reqs[0][:300], "result": res[0]}],
                        "correspondence_compares": "Model/Cache.v capacity = lru_cache(maxsize) read from /repo by the translator: %r" % (cur["cache"],)})
